@@ -3,6 +3,7 @@ package sim
 import (
 	"encoding/json"
 	"fmt"
+	"regexp"
 	"strconv"
 	"strings"
 	gotime "time"
@@ -26,20 +27,20 @@ type Val struct {
 // current length when the edit runs, and an edit whose target is gone or has
 // another type is a no-op. That makes every subsequence of a trace runnable.
 type Edit struct {
-	K string            `json:"k"`
-	P []string          `json:"p,omitempty"` // "key" or "#index"
-	Key string          `json:"key,omitempty"`
-	T string            `json:"t,omitempty"` // element type for *.new
-	I int               `json:"i,omitempty"`
-	J int               `json:"j,omitempty"`
-	L int               `json:"l,omitempty"`
-	S string            `json:"s,omitempty"`
-	V *Val              `json:"v,omitempty"`
-	A map[string]string `json:"a,omitempty"`
-	R []string          `json:"r,omitempty"`
-	Path  []int         `json:"path,omitempty"`
-	Path2 []int         `json:"path2,omitempty"`
-	Y string            `json:"y,omitempty"` // YSON literal
+	K     string            `json:"k"`
+	P     []string          `json:"p,omitempty"` // "key" or "#index"
+	Key   string            `json:"key,omitempty"`
+	T     string            `json:"t,omitempty"` // element type for *.new
+	I     int               `json:"i,omitempty"`
+	J     int               `json:"j,omitempty"`
+	L     int               `json:"l,omitempty"`
+	S     string            `json:"s,omitempty"`
+	V     *Val              `json:"v,omitempty"`
+	A     map[string]string `json:"a,omitempty"`
+	R     []string          `json:"r,omitempty"`
+	Path  []int             `json:"path,omitempty"`
+	Path2 []int             `json:"path2,omitempty"`
+	Y     string            `json:"y,omitempty"` // YSON literal
 }
 
 // Fail describes how an Update callback fails (C08).
@@ -449,10 +450,13 @@ func normErr(s string) string {
 	}
 	out := sb.String()
 	out = strings.ReplaceAll(out, "0x<id>", "<ptr>")
+	out = ticketRe.ReplaceAllString(out, "<ticket>")
 	if len(out) > 300 {
 		out = out[:300]
 	}
 	return out
 }
+
+var ticketRe = regexp.MustCompile(`\d+:\d+:[A-Za-z0-9_+/=-]{8,}(:\d+)?`)
 
 func (e *Edit) String() string { return fmt.Sprintf("%s%v", e.K, e.P) }
